@@ -23,23 +23,27 @@ KEY_CVODE_LOW = "C12:cvode-low-order-global-error"
 
 # ----------------------------------------------------------------------------------------- T-gen
 
+GEN_STATE = {"step_ok": True, "tableau_ok": True}
+
+
 def gen():
     import importlib
     import c12_gen
     importlib.reload(c12_gen)
     gdir = os.path.join(vlib.COQ, "Gen")
-    try:
-        t = c12_gen.gen_tableau(vlib.REPO)
-        s = c12_gen.gen_step(vlib.REPO)
-    except c12_gen.Refuse as ex:
-        # broken tie: make sure stale generated files cannot keep the proofs green
-        for f in ("Gen_C12_Tableau.v", "Gen_C12_Step.v"):
-            p = os.path.join(gdir, f)
-            if os.path.exists(p):
-                vlib.write_if_changed(p, "(* translator refused: %s *)\nDefinition translator_refused := tt.\n" % str(ex).replace("*)", "* )"))
-        raise
-    vlib.write_if_changed(os.path.join(gdir, "Gen_C12_Tableau.v"), t)
-    vlib.write_if_changed(os.path.join(gdir, "Gen_C12_Step.v"), s)
+    errs = []
+    for fname, fn, flag in (("Gen_C12_Tableau.v", c12_gen.gen_tableau, "tableau_ok"), ("Gen_C12_Step.v", c12_gen.gen_step, "step_ok")):
+        p = os.path.join(gdir, fname)
+        try:
+            vlib.write_if_changed(p, fn(vlib.REPO))
+            GEN_STATE[flag] = True
+        except c12_gen.Refuse as ex:
+            # broken tie: a stale generated file must not keep the proofs green
+            GEN_STATE[flag] = False
+            vlib.write_if_changed(p, "(* translator refused: %s *)\nDefinition translator_refused := tt.\n" % str(ex).replace("*)", "* )"))
+            errs.append("%s: %s" % (fname, ex))
+    if errs:
+        raise c12_gen.Refuse("; ".join(errs))
 
 
 # ----------------------------------------------------------------------------------------- scenarios
@@ -250,14 +254,22 @@ def input_text(sc, v):
 
 # ----------------------------------------------------------------------------------------- Coq evaluation
 
-PRELUDE = """From Coq Require Import QArith ZArith List Bool.
-From IPV Require Import C12.MiniPrelude C12.Checker C12.Closed Gen.Gen_C12_Step.
+PRELUDE_T = """From Coq Require Import QArith ZArith List Bool.
+From IPV Require Import C12.MiniPrelude C12.Checker C12.Closed C12.Step %s.
 Import ListNotations.
 Open Scope Q_scope.
 Definition step_ok (steps : list Q) (cnt : Z) (eq inc : bool) (n : Z) (reported : Q) : bool :=
-  let e := g_current_step steps cnt eq inc n in
+  let e := %s steps cnt eq inc n in
   Qle_bool (Qabs.Qabs (e - reported)) ((1 # 1000000000000) * (Qabs.Qabs e)).
 """
+
+
+def prelude():
+    # normally the KIN_TIME reported by the implementation is compared with the REGENERATED Current_step (validates the
+    # translator); if the translator refused the function, with its specification (what the property needs)
+    if GEN_STATE["step_ok"]:
+        return PRELUDE_T % ("Gen.Gen_C12_Step", "g_current_step")
+    return PRELUDE_T % ("", "current_step_spec")
 
 
 def coq_bools(exprs, chunk=120, timeout=600, workers=4, prelude=None):
@@ -267,7 +279,7 @@ def coq_bools(exprs, chunk=120, timeout=600, workers=4, prelude=None):
 
     def one(ids):
         body = ";\n  ".join("(%d%%nat, %s)" % (k, exprs[i]) for k, i in enumerate(ids))
-        v = (prelude or PRELUDE) + "Definition cases : list (nat * bool) := [\n  " + body + "\n].\n" \
+        v = (prelude or globals()["prelude"]()) + "Definition cases : list (nat * bool) := [\n  " + body + "\n].\n" \
             "Eval vm_compute in (map fst (filter (fun p => negb (snd p)) cases), length cases).\n"
         rc, out = vlib.coq_eval(v, timeout=timeout)
         return ids, rc, out
@@ -599,7 +611,7 @@ def finish_info(ctx):
 def replay(ctx):
     rp = json.load(open(ctx.replay))
     if rp.get("kind") == "obligation":
-        ok = vlib.coq_stage(ctx, "Props/Properties_C12.vo", gen=gen)
+        ok = vlib.coq_stage(ctx, "Props/Properties_C12.vo", gen=gen, extra_targets=("C12/Trace.vo",))
         ctx.rule = "replay of a proof obligation: rebuild Props/Properties_C12.vo against regenerated Gen files"
         return
     key = rp.get("key", "")
@@ -616,7 +628,7 @@ def replay(ctx):
 def run(ctx):
     if ctx.replay:
         return replay(ctx)
-    ok = vlib.coq_stage(ctx, "Props/Properties_C12.vo", gen=gen)
+    ok = vlib.coq_stage(ctx, "Props/Properties_C12.vo", gen=gen, extra_targets=("C12/Trace.vo",))
     ctx.trusted += ["translator/c12_gen.py (clang 14 JSON AST -> Gallina; validated by the KIN_TIME correspondence for Current_step)",
                     "closed-form solutions are unique solutions of their linear ODEs (Picard-Lindelof; existence/derivative is proved)",
                     "section variable pw (C pow): positive on positive arguments, <= 1 for x > 1, e < 0",
